@@ -14,6 +14,7 @@ from vlib import clist
 import py2coq
 import runlib
 import popgen
+import specgen
 
 LEVEL = "proof"
 
@@ -148,8 +149,15 @@ def gather(ctx):
     import specgen_hw
     import specgen_c12
     pops += [specgen_hw.gen_cascade(rng) for _ in range(60 if q else 500)]
-    for gen, n in ((popgen.shape, 30 if q else 250), (popgen.occupancy, 50 if q else 400)):
-        for it in gen(rng, n):
+    stacked = []
+    for _ in range(40 if q else 300):
+        # a shape level above occupancy levels on one rank (an intermediate rank such as K1I exists)
+        es = specgen.gen_product_einsum(rng)
+        mp, syms = specgen.occupancy_mapping(rng, es, flatten_p=0.0, shape_above_p=1.0)
+        if mp is not None:
+            stacked.append({"yaml": specgen.yaml_of(es["decl"], [es["expr"]], mp), "syms": syms or {}, "kind": "occupancy", "es": es, "mapping": mp})
+    for its in (popgen.shape(rng, 30 if q else 250), popgen.occupancy(rng, 50 if q else 400), stacked):
+        for it in its:
             w = specgen_hw.wrap_single(rng, it)
             if w is not None:
                 pops.append(w)
